@@ -205,6 +205,8 @@ def _strategy(draw):
             alias in ('none', 'x1x2'):
         # layout of the separate out element
         desc['out'] = draw(vs.element_descs(sd, orders=orders, lo=0, hi=1))
+    if sd['kind'] == 'tensor' and draw(st.integers(0, 5)) == 0:
+        desc['interleave'] = True
     if op in DIV_OPS and kind == 'real' and draw(st.integers(0, 3)) == 0:
         # IEEE semantics: exact zeros in the divisor give inf / nan entries
         desc['zero_div'] = True
@@ -320,7 +322,30 @@ def run_case(desc):
     dts = [np.dtype(l['dtype']) for l in leaves]
     total = max(build.space_size(l) for l in leaves)
 
+    lanes = {'n': 0, 'buf': None}
+
     def make(ed, spc=space, sdesc=sd):
+        if desc.get('interleave') and sdesc is sd and sd['kind'] == 'tensor':
+            # distinct, non-overlapping elements that are interleaved views
+            # of ONE buffer (columns of a matrix, x[0::k] / x[1::k]): their
+            # memory ranges overlap although no entry is shared
+            nl = 6
+            vals = build.array_values(ed, dtype=space.dtype,
+                                      shape=space.shape)
+            if lanes['buf'] is None:
+                lanes['buf'] = np.zeros(
+                    tuple(space.shape[:-1]) + (nl * space.shape[-1],),
+                    dtype=space.dtype)
+            k = lanes['n']
+            lanes['n'] += 1
+            if k >= nl:
+                raise HarnessError('more than {} interleaved lanes'.format(nl))
+            view = lanes['buf'][..., k::nl]
+            view[...] = vals
+            elem = space.element(view)
+            if not np.shares_memory(elem.data, lanes['buf']):
+                raise HarnessError('interleaved view was copied')
+            return elem
         return build.build_element(spc, sdesc, ed)
 
     x1 = make(desc['x1'])
@@ -662,6 +687,8 @@ def run_case(desc):
         strata.append('regime:large-by-one-axis')
     if stale_checked:
         strata.append('stale-out-checked')
+    if desc.get('interleave') and sd['kind'] == 'tensor':
+        strata.append('interleaved-views')
     if desc.get('zero_div'):
         strata.append('zero-divisor')
     if desc.get('tiny_data'):
@@ -684,6 +711,6 @@ def _regime(total):
 
 REQUIRED_STRATA = ['zero-divisor', 'huge-scalar-single-precision',
                    'regime:small', 'regime:medium', 'regime:large',
-                   'regime:large-by-one-axis',
+                   'regime:large-by-one-axis', 'interleaved-views',
                    'kind:int', 'kind:cplx', 'alias:all', 'alias:outx2',
                    'stale-out-checked', 'space:pspace', 'space:discr']
